@@ -23,7 +23,6 @@ import (
 	"os"
 	"os/exec"
 	"runtime"
-	"runtime/debug"
 	"sort"
 	"strings"
 	"sync"
@@ -447,15 +446,22 @@ type c09ChildOut struct {
 	Circular []bool   `json:"circular"`
 }
 
-func c09RaceBuild() bool {
-	if bi, ok := debug.ReadBuildInfo(); ok {
-		for _, s := range bi.Settings {
-			if s.Key == "-race" && s.Value == "true" {
-				return true
-			}
+// c09MappedBytes is the address space the process has mapped already (VmSize).
+// A binary built with -race maps terabytes of shadow memory at start, so an
+// address-space limit cannot be applied to it.
+func c09MappedBytes() uint64 {
+	b, err := os.ReadFile("/proc/self/status")
+	if err != nil {
+		return 0
+	}
+	for _, ln := range strings.Split(string(b), "\n") {
+		if strings.HasPrefix(ln, "VmSize:") {
+			var kb uint64
+			fmt.Sscanf(strings.TrimSpace(strings.TrimPrefix(ln, "VmSize:")), "%d", &kb)
+			return kb << 10
 		}
 	}
-	return false
+	return 0
 }
 
 // TestVerifC09Child runs one CircularLigate call described in the environment;
@@ -471,7 +477,7 @@ func TestVerifC09Child(t *testing.T) {
 		return
 	}
 	const limit = 2 << 30
-	if !c09RaceBuild() { // the race detector's shadow memory does not fit under an address-space limit
+	if c09MappedBytes() < limit/2 { // not under the race detector: its shadow memory alone exceeds any such limit
 		lim := syscall.Rlimit{Cur: limit, Max: limit}
 		if err := syscall.Setrlimit(syscall.RLIMIT_AS, &lim); err != nil {
 			fmt.Println("C09-CHILD-ERROR setrlimit: " + err.Error())
@@ -588,7 +594,7 @@ func TestVerifC09(t *testing.T) {
 	perms := 4
 	if thorough {
 		reps = 20
-		nLigate, nGG, nOrder, nTerm = 1500, 500, 400, 60
+		nLigate, nGG, nOrder, nTerm = 800, 300, 300, 60
 		perms = 10
 	}
 	hung := false
